@@ -13,6 +13,8 @@
 //! preserve_order x batch sizes x memory budgets forcing spill x outputs dropped early, on a
 //! multi-threaded runtime: every row exactly once, in the output of its route, fully read outputs
 //! complete even when others were dropped, order preserved when requested, no hang.
+//! The order / marker-protocol part of the end-to-end oracle (zero-row and sliced batches, pools
+//! that alternate between fitting and not fitting, per-(input, output) FIFO) is in `rt10.rs`.
 use std::collections::{BTreeMap, BTreeSet};
 use std::sync::Arc;
 
@@ -37,7 +39,7 @@ use datafusion_physical_plan::repartition::{
 use futures::StreamExt;
 use hutil::{Args, Rng, Run};
 
-type Key = Vec<Option<i64>>;
+pub(crate) type Key = Vec<Option<i64>>;
 
 fn cell(c: &Option<i64>) -> String {
     match c {
@@ -45,7 +47,7 @@ fn cell(c: &Option<i64>) -> String {
         Some(v) => v.to_string(),
     }
 }
-fn tuple(t: &Key) -> String {
+pub(crate) fn tuple(t: &Key) -> String {
     format!("({})", t.iter().map(cell).collect::<Vec<_>>().join(" "))
 }
 fn tuples(ts: &[Key]) -> String {
@@ -54,7 +56,7 @@ fn tuples(ts: &[Key]) -> String {
 fn opts_s(os: &[SortOptions]) -> String {
     format!("({})", os.iter().map(|o| format!("({} {})", o.descending as u8, o.nulls_first as u8)).collect::<Vec<_>>().join(" "))
 }
-fn scalars(t: &Key) -> Vec<ScalarValue> {
+pub(crate) fn scalars(t: &Key) -> Vec<ScalarValue> {
     t.iter().map(|c| ScalarValue::Int64(*c)).collect()
 }
 fn show_parts(parts: &[(usize, Vec<u64>)]) -> String {
@@ -70,7 +72,7 @@ fn gen_cell(rng: &mut Rng) -> Option<i64> {
         _ => Some(rng.range(0, 6)),
     }
 }
-fn gen_key(rng: &mut Rng, w: usize) -> Key {
+pub(crate) fn gen_key(rng: &mut Rng, w: usize) -> Key {
     (0..w).map(|_| gen_cell(rng)).collect()
 }
 fn gen_opts(rng: &mut Rng, w: usize) -> Vec<SortOptions> {
@@ -142,11 +144,11 @@ fn key_batch(keys: &[Key], w: usize, id0: u64) -> (SchemaRef, RecordBatch) {
     let b = RecordBatch::try_new(schema.clone(), cols).unwrap();
     (schema, b)
 }
-fn ids_of(b: &RecordBatch) -> Vec<u64> {
+pub(crate) fn ids_of(b: &RecordBatch) -> Vec<u64> {
     let c = b.column(b.num_columns() - 1).as_any().downcast_ref::<UInt64Array>().unwrap();
     c.values().to_vec()
 }
-fn range_partitioning(schema: &SchemaRef, w: usize, opts: &[SortOptions], splits: &[Key]) -> Option<RangePartitioning> {
+pub(crate) fn range_partitioning(schema: &SchemaRef, w: usize, opts: &[SortOptions], splits: &[Key]) -> Option<RangePartitioning> {
     let ordering = LexOrdering::new((0..w).map(|c| PhysicalSortExpr::new(col(&format!("k{c}"), schema).unwrap(), opts[c])))?;
     RangePartitioning::try_new(ordering, splits.iter().map(|s| SplitPoint::new(scalars(s))).collect()).ok()
 }
@@ -312,13 +314,12 @@ enum Scheme {
 }
 
 /// end to end through `RepartitionExec::execute`
-fn end_to_end(run: &mut Run, rng: &mut Rng) {
+fn end_to_end(run: &mut Run, rng: &mut Rng, known_class_hangs: &mut u32) {
     let n = run.budget(160, 6_000);
     let new_rt = || tokio::runtime::Builder::new_multi_thread().worker_threads(3).enable_all().build().unwrap();
     let mut rt = Some(new_rt());
     // once the known deadlock (notes/C10.md) has been recorded 3 times, configurations of that
     // class are no longer run (each hang costs a full deadline)
-    let mut known_class_hangs = 0;
     for it in 0..n {
         let scheme = *rng.pick(&[Scheme::Hash, Scheme::Hash, Scheme::Range, Scheme::Range, Scheme::RoundRobin]);
         let m = 1 + rng.below(4) as usize;
@@ -409,7 +410,7 @@ fn end_to_end(run: &mut Run, rng: &mut Rng) {
         // which outputs are dropped early, and after how many batches
         let drop_after: Vec<Option<usize>> = (0..nout).map(|_| if rng.chance(1, 4) { Some(rng.below(3) as usize) } else { None }).collect();
         let any_drop = drop_after.iter().any(|d| d.is_some());
-        if known_class_hangs >= 3 && !preserve && m >= 2 && mem < (1 << 20) {
+        if *known_class_hangs >= 3 && !preserve && m >= 2 && mem < (1 << 20) {
             run.count("e2e_skipped_deadlock_prone_after_3_hangs");
             continue;
         }
@@ -477,7 +478,7 @@ fn end_to_end(run: &mut Run, rng: &mut Rng) {
                 let known = !preserve && m >= 2 && spilled >= 1;
                 let class = if known { "hang exchange non-preserve-order multi-input spilled:" } else { "hang" };
                 if known {
-                    known_class_hangs += 1;
+                    *known_class_hangs += 1;
                 }
                 run.oracle(false, &format!("{class} {sig}"), &format!("RepartitionExec outputs did not finish within 20 s (spill_count={spilled})"));
                 // stop the stuck consumers and replace the runtime so nothing leaks into later cases
@@ -769,6 +770,8 @@ pub fn run(run: &mut Run, args: &Args) {
     hash_split(run, &mut rng);
     round_robin(run, &mut rng);
     spill_pool_probe(run);
-    end_to_end(run, &mut rng);
+    let mut known_class_hangs = 0u32;
+    end_to_end(run, &mut rng, &mut known_class_hangs);
+    crate::rt10::exchange_order(run, &mut rng, &mut known_class_hangs);
     exchange_spill_liveness(run, &mut rng);
 }
